@@ -6,18 +6,21 @@ BASE = "cd /repo && /venv/bin/python -m pytest -ra -q -p no:cacheprovider --time
 TRUST = ("z3 5.1 / cvc5; the pyvc VC generator (/verif/pyvc) and its stated Python semantics (DESIGN 2.3); "
          "the externals table (stdlib behaviour) as listed in the evidence file; type cases listed per function")
 CHECKS = {
- "C02": ("proof", "contract-based deductive verification: ast->SMT VCs of the real validator source, z3/cvc5",
+ "C02": ("other", "contract-based deductive verification: ast->SMT VCs of the real validator source, z3/cvc5; validate_constraints bounded to four constraint keys",
          "Every strict validator of Constraints (gt/ge/lt/le, length family, const, enum, regex, multiple_of, max_digits, "
          "decimal_places, unique_items, _parse_decimal) carries a biconditional contract taken from the documented sense; "
          "all path obligations are discharged for all inputs of the listed type cases (ints unbounded, floats as IEEE binary64 incl. NaN/inf, "
-         "Decimals incl. specials, strings, lists/tuples of arbitrary objects).", "DESIGN 3 C02"),
+         "Decimals incl. specials, strings, lists/tuples of arbitrary objects); Rule.parse applies the generated validators as a fold (exactness lemma by induction), _parse_contains and LogicalType.__instancecheck__ agree with it. "
+         "Which declared constraints reach the validators (Constraints.validate_constraints, bounded: declarations over const / enum / gt / min_length): one known finding -- const / enum silently drop every other declared constraint -- hence 'other', not 'proof'.", "DESIGN 3 C02"),
  "C03": ("proof", "contract-based deductive verification + lemmas over contracts (fixed point / strict form)",
          "Every lax validator has a full functional contract proved on the real source; convergence (lax(lax(v)) is lax(v)) and "
          "strict-form acceptance are lemmas discharged over the contracts for the exact domains (int, str, Decimal, list/tuple).", "DESIGN 3 C03"),
- "C18": ("other", "contract-based deductive verification of RuntimeContext.__init__/enter, Options.make_context, parser make_context + chain lemma over the contracts + AST audit of every context-creating call site; cost clause not decided",
+ "C18": ("other", "contract-based deductive verification of RuntimeContext.__init__/enter, Options.make_context, parser make_context + chain lemma over the contracts + AST audit of every context-creating call site; cost: ghost counter of conversion attempts on logical_parse + lemma over the contracts",
          "Depth half of C18 proved: depth = parent depth + (1 iff no route) for every route value (0, '' and non-str/int routes included), DepthExceedError exactly when max_depth is set and depth > max_depth, "
          "element/key/branch contexts keep depth and limit (lemma over the contracts: induction step between two data-class levels), every enter() site passes a route and every make_context/RuntimeContext site none (audit). "
-         "The polynomial-cost clause is not decided by any contract here (DESIGN 3 C18) - hence 'other', not 'proof'.", "DESIGN 3 C18"),
+         "Cost half: every call of LogicalType.logical_parse makes at most one pass over its arguments per open stage (a ghost counter advanced by every call of the transformer; loop invariants on the real loops; exactly one pass under strict options). "
+         "Polynomial total work needs the strict stage to reach nested data classes; the lemma that states it over the contracts of enter / make_context FAILS and is a known finding: every data-class level re-opens all three union stages, "
+         "so one invalid leaf under n levels of Optional['N'] costs (3^n - 1) / 2 conversions - hence 'other', not 'proof'.", "DESIGN 3 C18, 8.3"),
  "C10": ("other", "contract-based deductive verification of the error-collection protocol (RuntimeContext.handle_error / raise_error / collect_tmp_error / clear_tmp_error / enter / __init__) and of its callers' verdict invariance",
          "Protocol proved for all states: handle_error records e, raises e itself iff forced or fail-fast, raises one CollectedParseError carrying everything recorded iff the max_errors cap is reached, else returns; "
          "raise_error returns iff nothing is recorded; sub-contexts start empty and leave the parent's lists untouched. Callers (verdict invariance: a normal return implies nothing recorded) are under contract as listed in the evidence; "
@@ -33,7 +36,8 @@ CHECKS = {
  "C19": ("other", "contract-based deductive verification: freshness / frame obligations on the real functions",
          "copy_value rebuilds list/set/frozenset/tuple/dict at every depth (fresh result, items are copies), ParserField.get_default hands out only copy_value results (force_default, default, default_factory) with the documented gates; "
          "every contracted parse function carries `no input mutation` frame obligations and `fresh result`; the generated __init__ only reads the caller's dict; an AST audit shows that no parse-path function (about 100) writes to a parser, field, class or transformer object. "
-         "Generator wrappers and memoisation outside the registry are not decided - hence 'other'.", "DESIGN 3 C19"),
+         "No wrapper closure captures a RuntimeContext created at decoration time (audit C19_context_created_per_call: contexts are created per call); ClassParser.globals copies the module namespace. "
+         "Generator protocols and memoisation outside the registry are not decided - hence 'other'.", "DESIGN 3 C19"),
  "C05": ("other", "contract-based deductive verification of the field predicates against truth tables written from the documentation; consistency lemma",
          "ParserField.is_required / is_no_input / always_no_input / is_no_output / always_no_output / get_on_error / get_default, BaseParser.parse_addition proved against the documented tables for bool / mode-string / callable settings; "
          "always_* and is_* agree (lemma). The two field loops (data_first_parse, field_first_parse) are not under contract - hence 'other'.", "DESIGN 3 C05"),
@@ -66,10 +70,10 @@ CHECKS = {
          "R3 (bounded: one pending reference): an unresolvable reference stays registered; ClassParser.globals: the class's own name always stands for the class itself, every other name as in the module, the module's namespace is not written. "
          "One known finding (a ForwardRef shared through typing's alias cache is trusted whatever namespace evaluated it). "
          "Equality of behaviour with the direct spelling for every definition / first-use order, postponed evaluation and local scopes depends on typing's evaluator and module globals and is not decided - hence 'other'.", "DESIGN 3 C17"),
- "C06": ("other", "BOUNDED contract verification: field_first_parse and data_first_parse each verified against the same declarative field contract for one parser shape",
+ "C06": ("other", "BOUNDED contract verification: field_first_parse and data_first_parse each verified against the same declarative field contract for four parser shapes",
          "Bounded stand-in, not a proof for all declarations: for a parser with two declared fields (one with a second input name) and input keys a, x, b, zz in every presence combination (16), addition None/False/True, fail-fast and collecting, "
          "with symbolic values, flags, defaults and options, both strategies satisfy the same functional specification of (result, error set); callees (parse_value, is_no_input, is_required, get_default, parse_addition) are used through their proved contracts. "
-         "Dependencies, case-insensitive names, excluded keys, ignore_alias_conflicts and other shapes are outside the bound.", "DESIGN 3 C06, 8.6"),
+         "Further shapes: case-insensitive names; a field with dependencies (results keyed by field name, and by attribute name with as_attname=True). Excluded keys, ignore_alias_conflicts and other shapes are outside the bound.", "DESIGN 3 C06, 8.6"),
  "C16": ("proof", "contract-based deductive verification: representation invariant of TypeRegistry preserved by every operation",
          "The registry's list/cache are related to an abstract view (entries with priority and ghost registration stamp); "
          "I1 priority order, I2 most-recent-first, I3 cache coherence, I4 stamps are established by __init__ and preserved by the register "
